@@ -87,7 +87,10 @@ def case_pair(case):
     if ib.shape != (2, n + 1):
         return {"v": [_V(name + "/ideal_endpoints/shape", "ideal basis has shape %r" % (ib.shape,))], "t": t}
     q = np.abs(hyp.mink(ib, ib)) / np.sum(ib * ib, axis=-1)
-    if not (_finite(ib) and np.all(q <= 1e-9)):
+    # conditioning: the quadratic formula on the difference of the endpoints leaves a null-cone residual of
+    # ~2 eps / |A-B|^2 (measured on 12000 random pairs with |A-B| from 1e-2 to 1e-6); 1e-9 covers |A-B| >= 1e-3
+    tolq = max(1e-9, 32 * np.finfo(float).eps / float((B - A) @ (B - A)))
+    if not (_finite(ib) and np.all(q <= tolq)):
         v.append(_V(name + "/ideal_endpoints/not-lightlike",
                     "%s(%s,%s): ideal basis %s has relative Minkowski norms %s" % (cls, _f(A), _f(B), _f(ib), _f(q))))
         return {"v": v, "t": t, "o": "bad-ideal", "nt": True}
@@ -664,9 +667,14 @@ def history_cases(q, seed):
 # ------------------------------------------------------------------------------------------
 # enumeration
 # ------------------------------------------------------------------------------------------
+DEEP = False          # set by run() in the parent process only (cases carry their data)
+
+
 def _alphabet(n, q, seed):
-    P = lattice.klein_points(n, m_generic=6 if q else (30 if n == 2 else 16), seed=seed, rmax=0.9 if q else 0.99)
-    I = lattice.ideal_dirs(n, m_generic=4 if q else (12 if n == 2 else 8), seed=seed, avoid_infinity=INF_MARGIN)
+    big = (120 if n == 2 else 40) if DEEP else (30 if n == 2 else 16)
+    bigi = (30 if n == 2 else 16) if DEEP else (12 if n == 2 else 8)
+    P = lattice.klein_points(n, m_generic=6 if q else big, seed=seed, rmax=0.9 if q else 0.99)
+    I = lattice.ideal_dirs(n, m_generic=4 if q else bigi, seed=seed, avoid_infinity=INF_MARGIN)
     return P, I
 
 
@@ -778,6 +786,8 @@ def subspace_cases(q, seed):
 def run(ctx):
     # the full exploration takes ~10 s on 16 cores, so the quick tier runs the thorough bounds as well
     q, seed = False, ctx.seed
+    global DEEP
+    DEEP = not ctx.quick          # thorough tier: about twice as many lattice points per dimension
     only = getattr(ctx, "only", None)
 
     def want(name):
@@ -800,7 +810,7 @@ def run(ctx):
     ctx.assume("HorosphereArc endpoints lie on one horosphere (second endpoint constructed by the oracle on the Poincare horocircle), "
                ">= 0.3 rad away from the ideal centre")
     ctx.assume("Poincare subspaces through the origin may report a non-finite radius (flat limit)")
-    ctx.tolerances["ideal endpoints (Klein)"] = "1e-8 collinearity, 1e-7 against the oracle chord ends, 1e-9 relative Minkowski norm: projective data, no square-root cancellation beyond the quadratic formula"
+    ctx.tolerances["ideal endpoints (Klein)"] = "1e-8 collinearity, 1e-7 against the oracle chord ends, max(1e-9, 32 eps / |A-B|^2) relative Minkowski norm (the library residual scales as 2 eps/|A-B|^2): projective data, no square-root cancellation beyond the quadratic formula"
     ctx.tolerances["poincare circle"] = "1e-6 (1+V) max(1, 1/|A-B|), V = 1/dist(origin, Klein line) ~ |centre|: sqrt-eps class (Poincare coordinates of ideal points carry 1e-8), scaled by the size of the circle"
     ctx.tolerances["halfspace circle"] = "1e-6 (1+V)^2 max(1, 1/|A-B|), V = max half-space coordinate of the ideal endpoints: DESIGN section 4 sqrt-eps class"
     ctx.tolerances["arc on segment"] = "Klein collinearity and betweenness at the circle tolerance; |d(A,x)+d(x,B)-d(A,B)| <= 1e-6 (1+d)^2 in the model's closed-form metric"
